@@ -3,6 +3,11 @@
 mod driver;
 mod report;
 mod e1_quorum;
+mod e3_cons;
+mod monitor;
+mod sexp;
+mod sym;
+mod world;
 
 pub struct Opts {
     pub engine: String,
@@ -50,6 +55,7 @@ fn main() {
     }
     let report = match o.engine.as_str() {
         "quorum" => e1_quorum::run(&o),
+        "cons" => e3_cons::run(&o),
         x => {
             eprintln!("unknown engine {}", x);
             std::process::exit(2);
